@@ -17,7 +17,9 @@ import vlib
 from checks import c05, c01, c12
 
 LEVEL = "model_checking"
-PANICS = ["panic_nil", "panic_err", "panic_str", "panic_rt", "panic_struct"]
+PANICS = ["panic_nil", "panic_err", "panic_str", "panic_rt", "panic_struct",
+          # an error value wrapping context.Canceled; a value of an uncomparable type; the same item panicking twice in a row
+          "panic_cancel", "panic_slice", "panic_twice"]
 
 
 def run(ctx):
@@ -68,7 +70,7 @@ def run(ctx):
         "traces_validated_against_impl": ok1 + ok2 + ok3,
         "evaluations": len(scripts) + len(lscripts) + napi, "distinct_nontrivial": npan,
         "api_panic_probes": napi,
-        "rule": "work-item scripts: StopProtocol behaviours (stop after work) with outcomes drawn from 5 panic classes/ok/err "
+        "rule": "work-item scripts: StopProtocol behaviours (stop after work) with outcomes drawn from 8 panic classes/ok/err "
                 "plus the full table kind x panic class x {alone, next to a healthy item}; lifecycle scripts: Lifecycle "
                 "behaviours whose failing callbacks panic; non-trivial = contains a panicking item/routine; distinct by hash",
         "work_item_scripts": len(scripts), "lifecycle_scripts": len(lscripts),
